@@ -575,6 +575,11 @@ func (a *Assembler) AssembleWithTimestamp(netFlow gopacket.Flow, t *layers.TCP, 
 		conn.lastSeen = timestamp
 	}
 	seq, bytes := Sequence(t.Seq), t.Payload
+	if t.SYN && conn.nextSeq != invalidSequence {
+		// Retransmitted SYN: as for the first SYN, its payload starts one past
+		// the sequence number of the SYN itself.
+		seq = seq.Add(1)
+	}
 	if conn.nextSeq == invalidSequence {
 		if t.SYN {
 			if *debugLog {
@@ -724,8 +729,12 @@ func (a *Assembler) insertIntoConn(t *layers.TCP, conn *connection, ts time.Time
 	if conn.first != nil && conn.first.seq == conn.nextSeq {
 		panic("wtf")
 	}
-	p, p2, numPages := a.pagesFromTCP(t, ts)
-	prev, current := conn.traverseConn(Sequence(t.Seq))
+	seq := Sequence(t.Seq)
+	if t.SYN {
+		seq = seq.Add(1)
+	}
+	p, p2, numPages := a.pagesFromTCP(t, seq, ts)
+	prev, current := conn.traverseConn(seq)
 	conn.pushBetween(prev, current, p, p2)
 	conn.pages += numPages
 	for conn.first != nil &&
@@ -738,16 +747,15 @@ func (a *Assembler) insertIntoConn(t *layers.TCP, conn *connection, ts time.Time
 	}
 }
 
-// pagesFromTCP creates a page (or set of pages) from a TCP packet.  Note that
-// it should NEVER receive a SYN packet, as it doesn't handle sequences
-// correctly.
+// pagesFromTCP creates a page (or set of pages) from a TCP packet whose
+// payload starts at sequence number seq.
 //
 // It returns the first and last page in its doubly-linked list of new pages.
-func (a *Assembler) pagesFromTCP(t *layers.TCP, ts time.Time) (p, p2 *page, numPages int) {
+func (a *Assembler) pagesFromTCP(t *layers.TCP, seq Sequence, ts time.Time) (p, p2 *page, numPages int) {
 	first := a.pc.next(ts)
 	current := first
 	numPages++
-	seq, bytes := Sequence(t.Seq), t.Payload
+	bytes := t.Payload
 	for {
 		length := min(len(bytes), pageBytes)
 		current.Bytes = current.buf[:length]
